@@ -161,10 +161,15 @@ def k_elev(ctx):
                       detail="elev[%d,%d]=%r" % (i, j, elev[i, j]))
 
 
-@harness("C20.tile-cache", expect=lambda c: ["download-iff-absent"])
+@harness("C20.tile-cache", expect=lambda c: ["download-iff-absent", "no-download-when-already-cached"])
 def k_cache(ctx):
-    present = ctx.bool("tile_file_present")
+    present0 = ctx.bool("tile_file_present")
+    state = {"present": present0}
     downloads = []
+
+    def download(name):
+        downloads.append(name)
+        state["present"] = True          # a successful download puts the file into the cache
 
     class _OsPath:
         join = staticmethod(TP.os.path.join)
@@ -172,7 +177,7 @@ def k_cache(ctx):
 
         @staticmethod
         def exists(p):
-            return present
+            return state["present"]
 
     class _Os:
         path = _OsPath
@@ -185,13 +190,20 @@ def k_cache(ctx):
         def fromfile(f, dtype=None):
             return np.zeros(SRTM30._tile_height * SRTM30._tile_width, dtype=dtype)
     with patched((TP, "os", _Os), (TP, "np", _Np), (TP, "_get_data_path", lambda: "/nonexistent"),
-                 (SRTM30, "download_tile", staticmethod(lambda name: downloads.append(name)))):
+                 (SRTM30, "download_tile", staticmethod(download))):
         t = SRTM30.get_tile("w180n90")
+        first = len(downloads)
+        # history: the same tile is requested twice more against the now warm cache
+        SRTM30.get_tile("w180n90")
+        SRTM30.get_tile("w180n90")
+    present = present0
     if ctx.sym:
-        ctx.check("download-iff-absent", present if not downloads else Not(present))
+        ctx.check("download-iff-absent", present if not first else Not(present))
     else:
-        ctx.check("download-iff-absent", bool(present) == (not downloads))
-    ctx.check("at-most-one-download", len(downloads) <= 1)
+        ctx.check("download-iff-absent", bool(present) == (not first))
+    ctx.check("at-most-one-download", first <= 1)
+    ctx.check("no-download-when-already-cached", len(downloads) == first,
+              detail="downloads over three requests: %r" % (downloads,))
     ctx.check("tile-shape", np.shape(t) == (SRTM30._tile_height, SRTM30._tile_width))
 
 
